@@ -367,10 +367,20 @@ def classify(out, verdicts, byid):
     out.extra.setdefault("drift_kinds", {}).update(drift)
 
 
+def judge(out, recs, wd):
+    shards = kit.write_shards(recs, wd / "trace", "c08", 5000)
+    verdicts, st, tr = kit.judge_shards("C08_Judge", "C08_Judge", shards)
+    out.states += st
+    out.transitions += tr
+    out.traces += len(recs)
+    classify(out, verdicts, {r["id"]: r for r in recs})
+    return verdicts
+
+
 def judge_hist(recs, wd):
     """Trace validation of the driven histories (TLC steps C08_Hist's machine along them)."""
-    shards = kit.write_shards(recs, wd / "trace", "c08h", 4000)
-    return kit.judge_shards("C08_HJudge", "C08_HJudge", shards)
+    shards = kit.write_shards(recs, wd / "trace", "c08h", 12000)
+    return kit.judge_shards("C08_HJudge", "C08_HJudge", shards, jvms=2, workers=8)
 
 
 def corrupt_hist(rec):
@@ -392,7 +402,8 @@ def hist_family(tier, seed, wd):
     validate the traces.  Returns everything the main thread needs to classify."""
     t0 = time.time()
     runs = []
-    gen = kit.run_tlc("C08_Hist", "C08_Hist_quick", workers=4, heap="2g")
+    gen = kit.run_tlc("C08_Hist", "C08_Hist_quick" if tier == "quick" else "C08_Hist_wide",
+                      workers=4, heap="2g")
     kit.require_clean(gen, "C08_Hist model check (histories, depth 2)")
     runs.append(gen)
     hists = [p for p in gen.printed() if "hist" in p]
@@ -407,8 +418,12 @@ def hist_family(tier, seed, wd):
         runs.append(rnd)
         hists += [p for p in rnd.printed() if "hist" in p]
     neg = {}
-    for cfg, must, must_not in HIST_NEG:
-        r = kit.run_tlc("C08_Hist", cfg, workers=2, heap="2g", tag=f"C08_Hist.{cfg}")
+
+    def one_neg(c):
+        return kit.run_tlc("C08_Hist", c[0], workers=2, heap="2g", tag=f"C08_Hist.{c[0]}")
+    with cf.ThreadPoolExecutor(max_workers=3) as ex:
+        negruns = list(ex.map(one_neg, HIST_NEG))
+    for (cfg, must, must_not), r in zip(HIST_NEG, negruns):
         if any(i not in r.invariant_violated for i in must) or \
                 any(i in r.invariant_violated for i in must_not):
             tail = "\n".join(r.out.splitlines()[-25:])
